@@ -34,7 +34,9 @@ META = dict(
          "max_fails in {-1,0,1,2,3}), sleep-event histories (depth 3,3,2) and 50000 random long histories.",
     trusted_base=["model: coq/theories/ProcMan.v (hand-written transcription of taskiq/cli/worker/process_manager.py)",
                   "process / queue / os.kill / signal / sleep fakes in harness/drivers/pm_driver.py (multiprocessing.Process "
-                  "life cycle new/live/zombie/reaped, POSIX kill on a reaped pid, synchronous FIFO queue)"],
+                  "life cycle new/live/zombie/reaped, POSIX kill on a reaped pid, synchronous FIFO queue with multiprocessing.Queue's "
+                  "maxsize semantics, current_process/parent_process/active_children; any other multiprocessing name held by "
+                  "the module is a stub that fails closed)"],
     assumptions=["join() returns (the worker dies on SIGTERM)",
                  "queue.put() is visible to the next empty()/get() (no feeder-thread latency)",
                  "asynchronous events (signals, watchdog callback, worker deaths) happen at the fakes' delivery points: "
